@@ -86,7 +86,15 @@ def gen_big(rng):
                 sl = rng.below(2)
                 new = rng.choice([["s%d.%d.%d" % (x, v, sl), "w%d" % sl], ["g%d.%d" % (x, sl), "w%d" % sl]])
             ops += new
-        statics.append(ops[:budget])
+        ops = ops[:budget]
+        # an asynchronous comm must be waited for before its actor terminates: the kernel cancels the comms of a dying
+        # actor (the peer gets NetworkFailureException), which the reference LTS does not model (outside the domain)
+        keep = []
+        for n, o in enumerate(ops):
+            if o[0] in "sg" and ("w" + o.split(".")[-1]) not in ops[n + 1:]:
+                continue
+            keep.append(o)
+        statics.append(keep)
     if rng.chance(1, 5) and nact < 5:
         statics.append(["J%d" % (i + 1) for i in range(len(statics))])
     return mclib._fmt(hdr, statics, [])
@@ -264,7 +272,7 @@ def run(ctx):
         ctx.broken.append({"kind": "factories", "available": facts})
         return
     cap = 20000 if ctx.tier == "quick" else 60000
-    n = 150 if ctx.tier == "quick" else 1500
+    n = 120 if ctx.tier == "quick" else 900
     if ctx.broken:
         n *= 4
     if ctx.replay:
